@@ -416,6 +416,37 @@ def ringClause (cs os : List Pt) (mx tol : Rat) : String :=
       else if rabs (total - l) > ((pieces.length : Rat) + 1) * tol then "FAIL:densify-length-changed"
       else "") ""
 
+/-- The piece count branches on `ceil(d/max)` evaluated in f64. For a segment whose f64 length is
+exact (coordinate differences and root are binary64 values) the correctly rounded quotient gives
+another ceiling only when `d/max` lies above an integer `N` by at most half an ulp (`≤ N·2^-53`);
+otherwise (differences rounded, hypot within 1 ulp) when `d/max` is within `2^-49` relative of an
+integer. Returns the admissible piece counts: the exact one, plus the neighbour in a near-tie. -/
+def admissibleCounts (s : Pt × Pt) (mx : Rat) : List Nat :=
+  let qv := lenD s.1 s.2 / mx
+  let n := numSegments lenD s.1 s.2 mx
+  let fl := (Rat.floor qv : Rat)
+  let lo := qv - fl
+  let hi := fl + 1 - qv
+  if f64ExactSeg s.1 s.2 then
+    (if 0 < lo && lo * 9007199254740992 ≤ fl then [n - 1, n] else [n])
+  else if (rmin lo hi) * 562949953421312 ≤ qv then
+    [(Rat.ceil (qv * (1 - 1 / 562949953421312))).toNat, (Rat.ceil (qv * (1 + 1 / 562949953421312))).toNat]
+  else [n]
+
+/-- comparison with the model that tolerates the admissible piece counts of near-tie segments:
+original vertices exact and in order, `m − 1` points per segment with `m` admissible, the `k`-th
+within `tol` of `lerp a b (k/m)` -/
+def ringSameTie (cs os : List Pt) (mx tol : Rat) : Bool :=
+  if cs.length ≤ 1 then os == cs else
+  match align (segs cs) os with
+  | none => false
+  | some parts =>
+    os.getLast? == cs.getLast? && parts.all (fun (a, b, ins) =>
+      let m := ins.length + 1
+      let cands := admissibleCounts (a, b) mx
+      (cands.contains m || (m == 1 && cands.contains 0)) &&
+      (List.zip (List.range' 1 ins.length) ins).all (fun (k, p) => near tol p (lerp a b ((k : Rat) / (m : Rat)))))
+
 def handleDensify (inp out : List String) : String :=
   let pin : P (Geom × Rat) := do
     let g ← geometry
@@ -430,19 +461,8 @@ def handleDensify (inp out : List String) : String :=
   | some rings =>
   let allSegs := rings.flatMap segs
   let exact := allSegs.all (fun s => exactSeg s.1 s.2)
-  -- the piece count branches on ceil(d/max) evaluated in f64. For a segment whose f64 length is exact
-  -- (coordinate differences and root are binary64 values) the correctly rounded quotient gives another
-  -- ceiling only when d/max lies above an integer N by at most half an ulp (≤ N·2^-53); otherwise
-  -- (differences rounded, hypot within 1 ulp) when d/max is within 2^-49 relative of an integer.
-  -- Those cases are skipped and counted.
-  let nearTie := allSegs.any (fun s =>
-    let qv := lenD s.1 s.2 / mx
-    let fl := (Rat.floor qv : Rat)
-    let lo := qv - fl
-    let hi := fl + 1 - qv
-    if f64ExactSeg s.1 s.2 then 0 < lo && lo * 9007199254740992 ≤ fl
-    else (rmin lo hi) * 562949953421312 ≤ qv)
-  if nearTie then skip "near-tie-ceil" else
+  -- near-ties of the piece count (see `admissibleCounts`): compared with every admissible count
+  let nearTie := allSegs.any (fun s => (admissibleCounts s mx).length > 1)
   let pieces := allSegs.foldl (fun t s => t + numSegments lenD s.1 s.2 mx) 0
   if pieces > 100000 then skip "too-many-pieces" else
   let maxSeg := allSegs.foldl (fun m s => rmax m (lenD s.1 s.2)) 0
@@ -462,7 +482,8 @@ def handleDensify (inp out : List String) : String :=
         (List.range' 1 (n - 1)).all (fun k => lerpExact s.1 s.2 ((k : Rat) / (n : Rat)))))
     let tolM : Rat := if densExact then 0 else tol
     let same := shapeOf og == shapeOf mg && ors.length == mrs.length &&
-      (List.zip mrs ors).all (fun (m, o) => m.length == o.length && (List.zip m o).all (fun (p, q) => near tolM p q))
+      (if nearTie then ors.length == rings.length && (List.zip rings ors).all (fun (cs, os) => ringSameTie cs os mx tol)
+       else (List.zip mrs ors).all (fun (m, o) => m.length == o.length && (List.zip m o).all (fun (p, q) => near tolM p q)))
     let prop :=
       if shapeOf og != shapeOf mg || ors.length != rings.length then "FAIL:densify-shape"
       else
@@ -470,7 +491,7 @@ def handleDensify (inp out : List String) : String :=
     let prop := if prop == "" then "PASS" else prop
     let exactMult := allSegs.any (fun s => let qv := lenD s.1 s.2 / mx; qv.den == 1 && qv > 0)
     let inserted := pieces - (allSegs.filter (fun s => s.1 != s.2)).length
-    let cls := cls0 ++ (if densExact then " bit-exact" else " rounded") ++ (if exactMult then " exact-multiple" else "") ++
+    let cls := cls0 ++ (if nearTie then " ceil-near-tie" else if densExact then " bit-exact" else " rounded") ++ (if exactMult then " exact-multiple" else "") ++
       (if allSegs.any (fun s => s.1 == s.2) then " zero-seg" else "") ++
       (if mx > maxSeg then " max>longest" else "") ++
       (if inserted == 0 then " none-inserted" else "") ++
